@@ -1447,8 +1447,8 @@ EXTERN_STRUCTS = {      # core::ops range types, as far as the crate looks insid
     "RangeInclusive": [("start", ["usize"]), ("end_", ["usize"])], "RangeToInclusive": [("end_", ["usize"])], "RangeFull": [],
 }
 EXTERN_ENUMS = {"Bound": [("Included", "tuple", [["usize"]]), ("Excluded", "tuple", [["usize"]]), ("Unbounded", "unit", [])],
-                # core::num::ParseIntError, by the IntErrorKind values `str::parse::<usize>` can produce on digit strings
-                "ParseIntError": [("Empty", "unit", []), ("PosOverflow", "unit", [])]}
+                # core::num::ParseIntError, by the IntErrorKind values `str::parse::<usize>` can produce
+                "ParseIntError": [("Empty", "unit", []), ("InvalidDigit", "unit", []), ("PosOverflow", "unit", [])]}
 
 
 def gen_types(unit, names):
